@@ -481,6 +481,11 @@ def run(ctx):
     ctx.notes.append("closest / supeq full statements (ties and 'first sample not before' by index) hold for strictly increasing times "
                      "(closest_spec_strict, supeq_spec_strict); for repeated sample times only the time-wise forms are proved "
                      "(closest_spec_partial, supeq_spec_partial) and the code returns a later sample of equal time: listed known finding")
+    ctx.notes.append("documentation/indexing.rst line 40 gives the data index as sample_index * n_samples*n_species*space_size + ...: the extra "
+                     "factor n_samples is a documentation error (the code, the theorems and the oracle use sample*nspecies*ncells + "
+                     "species*ncells + cell); recorded only")
+    ctx.notes.append("negative sample indices wrap as in numpy (modelled by npNorm, exercised by the correspondence); the theorems are "
+                     "stated for 0 <= sample < nsamples")
     n = ctx.n(300, 4000)
     cases = []
     for i in range(n):
